@@ -14,7 +14,16 @@ class Skip(Exception):
     pass
 
 
-def comment_lines(lay, tag, ind):
+def comment_lines(lay, tag, ind, stray=False):
+    """(see below) -- `stray` puts a non-tag '<' before the tag inside the same comment"""
+    cl = _comment_lines(lay, tag, ind)
+    if stray and lay["form"] in ("hash", "mlmid", "mllast", "xml", "cblock"):
+        k = lay["tagl"]
+        cl[k] = cl[k].replace(tag, "i < j " + tag, 1) if lay["form"] not in ("cinline",) else cl[k]
+    return cl
+
+
+def _comment_lines(lay, tag, ind):
     """Start-tag comment as file lines; the tag sits on line lay['tagl'], the comment continues
     lay['more'] lines after it, and (inline layouts) ends at column lay['cend'] of its last line."""
     form, sp = lay["form"], " " * ind
@@ -59,7 +68,7 @@ def render(case, kind, mb, ci):
     tag = '<block name="r" %s>' % rule
     ind = ci % 3 if form in ("hash", "cblock", "xml") else 0
     pre = [("v%d = 1" % k) if py else "" if md else ("static P%d: i32 = 1;" % k) for k in range(lay["pre"])]
-    cl = comment_lines(lay, tag, ind)
+    cl = comment_lines(lay, tag, ind, stray=(ci % 3 == 1))
     assert len(cl) - 1 - lay["tagl"] == lay["more"], (form, len(cl))
     if lay["inline"]:
         assert len(cl[-1]) == lay["cend"], (form, len(cl[-1]), lay["cend"])
